@@ -256,6 +256,19 @@ async fn run_case(cx: &Ctx<'_>, seed: u64, idx: u64, thorough: bool, selftest: b
         // ---- next operation
         let op = h.gen_op(&mut rng, WEIGHTS);
         let out = h.apply(&mut rng, &op).await;
+        if let Some((kind, empty)) = h.stable_flag_lost {
+            // the table silently stopped using stable row ids: everything the property says about
+            // row ids is void from here on; one class, reported once per case
+            if !selftest {
+                cx.report.violation(
+                    &format!("stable-row-id-flag-dropped-by-{kind}{}", if empty { "-on-empty-table" } else { "" }),
+                    "a table created with stable row ids lost the feature flag: rows written from now on get address-style row ids that change on update / compaction",
+                    json!({"seed": seed, "case": idx, "history": h.log_json()}),
+                );
+                cx.report.case(None);
+            }
+            return (applied, detected);
+        }
         cx.ops.add(op.kind(), 1);
         last = op.kind();
         match out {
@@ -305,7 +318,7 @@ pub fn run(args: &Args) -> i32 {
          list of live row ids (duplicates, sorted/unsorted, cached or fresh session) is compared with the model. \
          Non-trivial = >=1 applied update-like op or compaction after which previously recorded row ids were re-checked; \
          distinct by (storage version, file size, applied op kinds).",
-        (60, 900),
+        (85, 900),
     )
     .with_min_nontrivial(args.tier.pick(40, 400));
     let ops = Histo::default();
@@ -317,7 +330,7 @@ pub fn run(args: &Args) -> i32 {
     };
     let selftest = selftest_requested(args);
     let thorough = args.tier == vmon::report::Tier::Thorough;
-    let max_cases = if selftest { 60 } else { args.tier.pick(1_500, 40_000) };
+    let max_cases = if selftest { 60 } else { args.tier.pick(500, 40_000) };
     let st = std::sync::Mutex::new((0u64, 0u64));
     if let Some(i) = args.extra.get("case").and_then(|s| s.parse::<u64>().ok()) {
         let rt = tokio::runtime::Builder::new_current_thread().enable_all().build().unwrap();
